@@ -117,6 +117,26 @@ pub fn direct_ops(thorough: bool) -> Vec<Op> {
   v
 }
 
+/// connectables used as ordinary pipeline stages (one subscriber only: they share by design).
+/// For one subscriber ref_count()/replay() are the identity, with two exceptions that are C13's
+/// business and are kept out: an operator above that re-subscribes (retry: the new attempt meets a
+/// connectable whose source has terminated) and, for replay(), anything below that emits
+/// synchronously at subscribe time (C13's known finding: the connecting subscriber gets it twice).
+pub fn connectable_pipelines(hot_only: bool) -> Vec<Node> {
+  let above: Vec<Op> = reduced_ops().into_iter().filter(|o| !matches!(o, Op::Retry(_) | Op::RetryWhen(_))).collect();
+  let red = reduced_ops();
+  if hot_only {
+    let mut v = depth1(&[Op::ReplayConn]);
+    v.extend(depth2(&[Op::ReplayConn], &above));
+    v
+  } else {
+    let mut v = depth1(&[Op::RefCount]);
+    v.extend(depth2(&[Op::RefCount], &above));
+    v.extend(depth2(&red, &[Op::RefCount]));
+    v
+  }
+}
+
 /// one instance per operator (for deeper nestings)
 pub fn reduced_ops() -> Vec<Op> {
   use Op::*;
